@@ -61,7 +61,35 @@ fn conn_of(q: u64) -> u64 {
 	}
 }
 
-type WsTx = soketto::Sender<BufReader<BufWriter<tokio_util::compat::Compat<tokio::io::DuplexStream>>>>;
+pub trait Io: tokio::io::AsyncRead + tokio::io::AsyncWrite + Unpin + Send {}
+impl<T: tokio::io::AsyncRead + tokio::io::AsyncWrite + Unpin + Send> Io for T {}
+type BoxIo = Box<dyn Io>;
+type WsTx = soketto::Sender<BufReader<BufWriter<tokio_util::compat::Compat<BoxIo>>>>;
+
+/// how the server of a scenario is assembled
+enum Mode {
+	/// the tower service over in-process duplex connections, one stop channel shared by all of them
+	Tower { rig: Rig, stop: Option<jsonrpsee_server::StopHandle> },
+	/// `Server::start` on a loopback listener: the real accept loop
+	Server { addr: std::net::SocketAddr },
+}
+impl Mode {
+	async fn connect(&self) -> Option<BoxIo> {
+		match self {
+			Mode::Tower { rig, stop } => {
+				let stop = stop.as_ref()?;
+				let svc = rig.svc(stop.clone());
+				let (client_io, server_io) = tokio::io::duplex(1 << 20);
+				let stopped = stop.clone().shutdown();
+				tokio::spawn(async move {
+					let _ = jsonrpsee_server::serve_with_graceful_shutdown(server_io, svc, stopped).await;
+				});
+				Some(Box::new(client_io))
+			}
+			Mode::Server { addr } => tokio::net::TcpStream::connect(addr).await.ok().map(|s| Box::new(s) as BoxIo),
+		}
+	}
+}
 
 async fn pause(rng_n: u8) {
 	for _ in 0..rng_n {
@@ -76,10 +104,20 @@ async fn scenario(rng: &mut StdRng, sc: usize) -> Vec<Value> {
 	let tracer = Tracer::default();
 	let ctx = Arc::new(Ctx { tracer: tracer.clone(), gates: Mutex::new(HashMap::new()) });
 	let methods: jsonrpsee_server::Methods = module(ctx.clone()).into();
-	let rig = Rig::with_methods(RigCfg { buf_cap: 1, max_conns: 10, ..Default::default() }, Default::default(), methods);
-	tracer.ev(json!({"ev": "Reset", "sc": sc, "limit": 10}));
-	// one stop channel for the whole "server" of this scenario
-	let (stop, handle) = jsonrpsee_server::stop_channel();
+	let use_server = sc % 3 == 2;
+	tracer.ev(json!({"ev": "Reset", "sc": sc, "limit": 10, "rig": if use_server { "Server::start" } else { "tower" }}));
+	let cfg = RigCfg { buf_cap: 1, max_conns: 10, ..Default::default() };
+	let (mut mode, handle) = if use_server {
+		let server = jsonrpsee_server::Server::builder().set_config(cfg.server_config()).build("127.0.0.1:0").await.expect("bind loopback");
+		let addr = server.local_addr().unwrap();
+		let handle = server.start(methods);
+		(Mode::Server { addr }, handle)
+	} else {
+		let rig = Rig::with_methods(cfg, Default::default(), methods);
+		// one stop channel for the whole "server" of this scenario
+		let (stop, handle) = jsonrpsee_server::stop_channel();
+		(Mode::Tower { rig, stop: Some(stop) }, handle)
+	};
 	let mut gate_tx: HashMap<u64, oneshot::Sender<()>> = HashMap::new();
 	for q in 1..=5u64 {
 		let (tx, rx) = oneshot::channel();
@@ -99,12 +137,7 @@ async fn scenario(rng: &mut StdRng, sc: usize) -> Vec<Value> {
 	let mut ws_tx: HashMap<u64, WsTx> = HashMap::new();
 	let mut readers = vec![];
 	for c in 1..=n_ws {
-		let svc = rig.svc(stop.clone());
-		let (client_io, server_io) = tokio::io::duplex(1 << 20);
-		let stopped = stop.clone().shutdown();
-		tokio::spawn(async move {
-			let _ = jsonrpsee_server::serve_with_graceful_shutdown(server_io, svc, stopped).await;
-		});
+		let Some(client_io) = mode.connect().await else { continue };
 		let mut client = soketto::handshake::Client::new(BufReader::new(BufWriter::new(client_io.compat())), "localhost", "/");
 		if !matches!(client.handshake().await, Ok(soketto::handshake::ServerResponse::Accepted { .. })) {
 			continue;
@@ -170,7 +203,6 @@ async fn scenario(rng: &mut StdRng, sc: usize) -> Vec<Value> {
 	}
 	let mut stopped_requested = false;
 	let mut http_task = None;
-	let mut stop_opt = Some(stop);
 	for act in plan {
 		pause(rng.random_range(0..6)).await;
 		match act {
@@ -192,12 +224,7 @@ async fn scenario(rng: &mut StdRng, sc: usize) -> Vec<Value> {
 				if stopped_requested {
 					continue; // the driver does not open new connections after its own stop (that is the after-stop probe's job)
 				}
-				let svc = rig.svc(stop_opt.as_ref().unwrap().clone());
-				let (mut client, server) = tokio::io::duplex(1 << 16);
-				let stopped = stop_opt.as_ref().unwrap().clone().shutdown();
-				tokio::spawn(async move {
-					let _ = jsonrpsee_server::serve_with_graceful_shutdown(server, svc, stopped).await;
-				});
+				let Some(mut client) = mode.connect().await else { continue };
 				tracer.ev(json!({"ev": "Open", "c": 3}));
 				tracer.ev(json!({"ev": "PeerSend", "q": 5}));
 				let body = r#"{"jsonrpc":"2.0","id":5,"method":"gated","params":[5]}"#;
@@ -228,7 +255,9 @@ async fn scenario(rng: &mut StdRng, sc: usize) -> Vec<Value> {
 				tracer.ev(json!({"ev": "Stop"}));
 				let _ = handle.stop();
 				// the harness' own clone of the stop handle must go, otherwise `stopped()` can never resolve
-				drop(stop_opt.take());
+				if let Mode::Tower { stop, .. } = &mut mode {
+					drop(stop.take());
+				}
 				if rng.random_bool(0.5) {
 					let r = handle.stop();
 					tracer.ev(json!({"ev": "StopAgain", "ok": r.is_ok()}));
